@@ -228,6 +228,21 @@ impl Monitor for C05 {
         for k in 0..ns {
             let mut ast = match k % 6 {
                 0 | 1 => gen_shortcut(&mut rng, &cfg),
+                2 if k % 12 == 2 => {
+                    // groups that take part in the match of one line and not of the next
+                    let g = |c: char| Node::Group(Box::new(Node::Char(c)));
+                    let opt = |n: Node| Node::Repeat { body: Box::new(n), min: 0, max: Some(1), greedy: true, spell: 0 };
+                    let core = match rng.below(3) {
+                        0 => Node::NcGroup(Box::new(Node::Alt(vec![g('a'), g('b')]))),
+                        1 => Node::Cat(vec![opt(g('a')), g('b')]),
+                        _ => Node::Cat(vec![opt(g('a')), opt(g('1')), g('b')]),
+                    };
+                    let mut v = vec![Node::Bol, core];
+                    if rng.chance(1, 3) {
+                        v.push(Node::Eol);
+                    }
+                    Node::Cat(v)
+                }
                 2 => gen_line_shape(&mut rng, &['a', 'b']),
                 3 => super::refprops::gen_backref_shape(&mut rng),
                 4 => gen_anchor_giveback(&mut rng),
